@@ -918,14 +918,51 @@ fn total_emit(s: &[Act]) -> u64 {
     s.iter().map(|a| if let Act::Emit { n, .. } = a { *n } else { 0 }).sum()
 }
 
-/// for an echoing child on the polling driver the outcome is only determined when everything fits
-/// into the two pipes (see Props: `blocking_fits_completes`, `F200`): otherwise judge by monitors only
-fn poll_mode(sc: &mut Scn) {
-    if sc.drv == "poll" && !sc.stdin_null {
-        let echoes = sc.script.iter().any(|a| matches!(a, Act::Copy { dst: 'o' | 'e', .. }));
-        if echoes && sc.paylen as u64 > (sc.capin + sc.capout.min(sc.caperr)) * 3 / 4 {
-            sc.mode = "loose".into();
+/// (bytes to stdout, bytes to stderr, bytes consumed) of a script on a payload of `paylen` bytes
+fn totals(script: &[Act], paylen: u64) -> (u64, u64, u64) {
+    let (mut o, mut e, mut rest) = (0u64, 0u64, paylen);
+    for a in script {
+        match a {
+            Act::Copy { lim, dst, .. } => {
+                let n = lim.map(|n| n.min(rest)).unwrap_or(rest);
+                rest -= n;
+                match dst {
+                    'o' => o += n,
+                    'e' => e += n,
+                    _ => {}
+                }
+            }
+            Act::Emit { dst: 'o', n, .. } => o += n,
+            Act::Emit { dst: 'e', n, .. } => e += n,
+            Act::Exit(_) | Act::Kill(_) => break,
+            _ => {}
         }
+    }
+    (o, e, paylen - rest)
+}
+
+/// On the polling driver a `write` occupies the runtime thread until the whole chunk is in the pipe.
+/// The outcome is determined (Props: `blocking_*`) when no write can block (payload fits into the
+/// stdin pipe), or the child can never block on its outputs (they fit into their pipes), or the child
+/// is a plain echo and everything fits into the two pipes. Otherwise the case is judged by the
+/// monitors only (`loose`). Margins: a pipe holds fewer bytes than its nominal size when the writes
+/// are not page sized.
+fn poll_mode(sc: &mut Scn) {
+    if sc.drv != "poll" || sc.stdin_null || sc.opt("sure") {
+        return;
+    }
+    let (o, e, _) = totals(&sc.script, sc.paylen as u64);
+    let pay = sc.paylen as u64;
+    let fits_in = pay <= sc.capin * 3 / 4;
+    let outs_fit = o <= sc.capout * 3 / 4 && e <= sc.caperr * 3 / 4;
+    let plain_echo = match sc.script.as_slice() {
+        [Act::Copy { lim: None, dst, .. }, Act::Exit(_)] => {
+            pay <= (sc.capin + if *dst == 'o' { sc.capout } else { sc.caperr }) * 3 / 4 || *dst == 'n'
+        }
+        _ => false,
+    };
+    if !(fits_in || outs_fit || plain_echo) {
+        sc.mode = "loose".into();
     }
 }
 
@@ -1121,6 +1158,7 @@ fn generate(tier: &str, rng: &mut Rng) -> Vec<Case> {
         sc.paylen = (3 * small + rng.range(4097, 9000)) as usize;
         sc.wch = 65537;
         sc.script = vec![dd(4096, 'o'), Act::Exit(0)];
+        sc.opts.push("sure".into());
         push(&mut cases, "f200", sc.clone());
         sc.drv = "uring".into();
         push(&mut cases, "f200-uring", sc);
@@ -1129,6 +1167,7 @@ fn generate(tier: &str, rng: &mut Rng) -> Vec<Case> {
             sc.paylen = 1 << 20;
             sc.wch = 1 << 20;
             sc.script = vec![cat('o'), Act::Exit(0)];
+            sc.opts.push("sure".into());
             push(&mut cases, "f200-cat", sc);
         }
         for drv in drvs {
